@@ -15,6 +15,7 @@
 -/
 import GraphiqModel.Proofs.Noise
 import GraphiqModel.Proofs.Channel
+import GraphiqModel.Proofs.GateTable
 namespace Graphiq.C06
 open Graphiq Graphiq.Noise Graphiq.DM
 
@@ -112,6 +113,14 @@ def dm_equals_mixture_statement : Prop :=
     (∀ op ∈ ops, op.kind.isOneQubit = true ∨ op.kind.isCtrlPair = true) →
     compileStab true ne np nc det ops = .ok s → compileDM true ne np nc det ops = .ok d → d.ρ = some ρ →
     Mat.EqOn ρ (mixtureDensity (ne + np) s.mix)
+
+/-- **bounded base case of (c)** (finite table, kernel-checked — *not* the general statement): on 1 qubit, for all 8 signed Pauli
+    matrices, and on 2 qubits, for the 8 signed one-site generators, every gate matrix of the density-matrix model
+    (H, P, P†, X, Y, Z on each qubit; CNOT, CZ in both directions) is unitary and conjugates the Pauli matrix into exactly the
+    signed Pauli matrix of the row that the stabilizer model's tableau gate produces.  The lifting to n qubits is cited
+    mathematics (DESIGN §7). -/
+theorem dm_gates_match_tableau_gates_small :
+    allGateChecks 1 (allRows 1) = true ∧ allGateChecks 2 (genRows 2) = true := ⟨gates_agree_n1, gates_agree_n2⟩
 
 /-! ### channel identities for arbitrary dimension (Mathlib matrices over ℂ): the density-matrix noise models are physical -/
 
